@@ -156,6 +156,7 @@ pub fn def() -> PropDef {
         subs: vec![
             Box::new(Sub { name: "encode", rule: "bytes == model ZCash encoding; decode(encode(P)) == P", quick: 2500, thorough: 80_000, strategy: || boxed(enc_case_strategy()), check: check_enc_with_sizes }),
             Box::new(Sub { name: "reencode-accepted", rule: "for every byte string a decoder accepts: encode(decode(s)) == s", quick: 6000, thorough: 200_000, strategy: || boxed(dec_case_strategy()), check: check_reencode_any }),
+            super::corpus_sub_decode(),
         ],
         assumptions: COMMON_ASSUMPTIONS.to_vec(),
     }
